@@ -1,4 +1,382 @@
 package main
 
-func (e *env) partB(shard, nshards int) {}
-func (e *env) replayB(path []int)       {}
+import (
+	"fmt"
+	"strings"
+
+	sdkmath "cosmossdk.io/math"
+	sdk "github.com/cosmos/cosmos-sdk/types"
+	"github.com/palomachain/paloma/v2/x/consensus/keeper/consensus"
+	ctypes "github.com/palomachain/paloma/v2/x/consensus/types"
+	evmtypes "github.com/palomachain/paloma/v2/x/evm/types"
+	"github.com/palomachain/paloma/v2/zzverif/world"
+)
+
+// ---------------------------------------------------------------------------
+// (b) relay gating
+
+const (
+	actS1 = iota // SubmitLogicCall sent by S1
+	actS2        // SubmitLogicCall sent by S2
+	actUV        // UpdateValset
+)
+
+const (
+	estNone        = iota // estimate required, none elected yet
+	estElected            // estimate required and elected (3 estimates + real election)
+	estNotRequired        // message put without the gas-estimation flag (thorough tier)
+)
+
+const (
+	repNone = iota
+	repPublic
+	repError
+)
+
+type slot struct{ Act, Assignee, Rep, Est int }
+
+func decodeSlot(s int) slot {
+	return slot{Act: s % 3, Assignee: (s / 3) % 2, Rep: (s / 6) % 3, Est: s / 18}
+}
+
+func (s slot) String() string {
+	return []string{"SLC(S1)", "SLC(S2)", "UpdateValset"}[s.Act] + fmt.Sprintf("->v%d", s.Assignee) +
+		[]string{",est:none", ",est:elected", ",est:not-required"}[s.Est] + []string{"", ",public-data", ",error-data"}[s.Rep]
+}
+
+type ghostMsg struct {
+	ID uint64
+	S  slot
+}
+
+func (e *env) nSlots() int {
+	if e.r.Thorough() {
+		return 54
+	}
+	return 36
+}
+
+// baseB: prepared state + relayer fee 1.0 for every validator (the election of
+// a fee-paying message needs the assignee's fee record).
+func (e *env) baseB() sdk.Context {
+	ctx := world.Fork(e.w.Root)
+	for _, v := range e.w.Vals {
+		must(e.w.SetFee(ctx, v, target, "1.0"))
+	}
+	return ctx
+}
+
+// addMessage appends one message in the given state to the queue in ctx using
+// the queue API the evm keeper uses, the estimate / report transactions and the
+// real estimate election.
+func (e *env) addMessage(ctx sdk.Context, s slot, seq int) (uint64, error) {
+	id, err := e.addStem(ctx, s, seq)
+	if err != nil {
+		return 0, err
+	}
+	return id, e.addReport(ctx, s, id)
+}
+
+// addStem: put + (when asked for) estimates and the real election.
+func (e *env) addStem(ctx sdk.Context, s slot, seq int) (uint64, error) {
+	w := e.w
+	v := w.Vals[s.Assignee]
+	m := &evmtypes.Message{TurnstoneID: world.CompassID, ChainReferenceID: target, Assignee: v.ValAddr.String(),
+		AssigneeRemoteAddress: e.snapA[s.Assignee], AssignedAtBlockHeight: sdkmath.NewInt(ctx.BlockHeight())}
+	switch s.Act {
+	case actS1, actS2:
+		sender := e.s1
+		if s.Act == actS2 {
+			sender = e.s2
+		}
+		m.Action = &evmtypes.Message_SubmitLogicCall{SubmitLogicCall: &evmtypes.SubmitLogicCall{
+			HexContractAddress: "0x00000000000000000000000000000000000000cc", Abi: []byte("[]"), Payload: []byte{0xde, 0xad, byte(seq)},
+			Deadline: ctx.BlockTime().Unix() + 600, SenderAddress: sender.Addr}}
+	default:
+		m.Action = &evmtypes.Message_UpdateValset{UpdateValset: &evmtypes.UpdateValset{Valset: &evmtypes.Valset{
+			Validators: e.snapA, Powers: []uint64{1431655765, 1431655765, 1431655765}, ValsetID: uint64(100 + seq)}}}
+	}
+	id, err := w.App.ConsensusKeeper.PutMessageInQueue(ctx, e.queue, m, &consensus.PutOptions{RequireSignatures: true, RequireGasEstimation: s.Est != estNotRequired})
+	if err != nil {
+		return 0, fmt.Errorf("put: %w", err)
+	}
+	if s.Est == estElected {
+		for _, val := range w.Vals {
+			if res := w.DeliverTx(ctx, []*world.Actor{val.Actor}, world.Estimate(val, e.queue, id, 21000)); !res.OK() {
+				return 0, fmt.Errorf("estimate by %s: %w", val.Name, res.Err)
+			}
+		}
+		if err := w.App.ConsensusKeeper.CheckAndProcessEstimatedMessages(ctx); err != nil {
+			return 0, fmt.Errorf("election: %w", err)
+		}
+	}
+	return id, nil
+}
+
+// addReport: the assignee's delivery / error report transaction.
+func (e *env) addReport(ctx sdk.Context, s slot, id uint64) error {
+	w := e.w
+	v := w.Vals[s.Assignee]
+	switch s.Rep {
+	case repPublic:
+		if res := w.DeliverTx(ctx, []*world.Actor{v.Actor}, &ctypes.MsgSetPublicAccessData{MessageID: id, QueueTypeName: e.queue, Data: []byte{0xab, 0xcd}, ValsetID: e.baseSnap.Id, Metadata: world.Meta(v.Actor)}); !res.OK() {
+			return fmt.Errorf("public access data: %w", res.Err)
+		}
+	case repError:
+		if res := w.DeliverTx(ctx, []*world.Actor{v.Actor}, &ctypes.MsgSetErrorData{MessageID: id, QueueTypeName: e.queue, Data: []byte("reverted"), Metadata: world.Meta(v.Actor)}); !res.OK() {
+			return fmt.Errorf("error data: %w", res.Err)
+		}
+	}
+	return nil
+}
+
+// children builds the successors of a queue state lazily: the three report
+// variants of a slot share one stem (put + election), forked per variant.
+type children struct {
+	e      *env
+	parent sdk.Context
+	seq    int
+	stems  map[int]stem
+}
+
+type stem struct {
+	ctx sdk.Context
+	id  uint64
+	err error
+}
+
+func (e *env) childrenOf(parent sdk.Context, seq int) *children {
+	return &children{e: e, parent: parent, seq: seq, stems: map[int]stem{}}
+}
+
+func (c *children) get(si int) (sdk.Context, uint64, error) {
+	s := decodeSlot(si)
+	key := si - 6*s.Rep // same act, assignee, est; report none
+	st, ok := c.stems[key]
+	if !ok {
+		st.ctx = world.Fork(c.parent)
+		st.id, st.err = c.e.addStem(st.ctx, s, c.seq)
+		c.stems[key] = st
+	}
+	if st.err != nil {
+		return st.ctx, 0, st.err
+	}
+	ctx := world.Fork(st.ctx)
+	return ctx, st.id, c.e.addReport(ctx, s, st.id)
+}
+
+// verifyStored checks that the stored queue is exactly what the ghost says
+// (harness self-check: the state under test is the state described).
+func (e *env) verifyStored(ctx sdk.Context, gs []ghostMsg) error {
+	msgs := e.w.Queue(ctx, e.queue)
+	if len(msgs) != len(gs) {
+		return fmt.Errorf("%d messages stored, ghost has %d", len(msgs), len(gs))
+	}
+	for i, m := range msgs {
+		g := gs[i]
+		if m.GetId() != g.ID {
+			return fmt.Errorf("position %d: id %d, ghost %d", i, m.GetId(), g.ID)
+		}
+		if (m.GetGasEstimate() > 0) != (g.S.Est == estElected) || m.GetRequireGasEstimation() != (g.S.Est != estNotRequired) {
+			return fmt.Errorf("message %d: estimate %d require=%v, ghost %s", g.ID, m.GetGasEstimate(), m.GetRequireGasEstimation(), g.S)
+		}
+		if (m.GetPublicAccessData() != nil) != (g.S.Rep == repPublic) || (m.GetErrorData() != nil) != (g.S.Rep == repError) {
+			return fmt.Errorf("message %d: report state differs from ghost %s", g.ID, g.S)
+		}
+		cm, err := m.ConsensusMsg(e.w.App.AppCodec())
+		em, _ := cm.(*evmtypes.Message)
+		if err != nil || em == nil || em.Assignee != e.w.Vals[g.S.Assignee].ValAddr.String() {
+			return fmt.Errorf("message %d: assignee differs from ghost %s", g.ID, g.S)
+		}
+		if g.S.Est == estElected && g.S.Act != actUV {
+			if f := em.GetSubmitLogicCall().GetFees(); f == nil || f.RelayerFee != 21000 {
+				return fmt.Errorf("message %d: elected but fees %v", g.ID, f)
+			}
+		}
+	}
+	return nil
+}
+
+// reference decides, from the ghost alone, whether message k is to be offered
+// to validator caller; reason names the first failing condition.
+func reference(gs []ghostMsg, k, caller int) (bool, string) {
+	g := gs[k]
+	if g.S.Assignee != caller {
+		return false, "not-the-assignee"
+	}
+	if g.S.Est == estNone {
+		return false, "estimate-not-elected"
+	}
+	if g.S.Rep != repNone {
+		return false, "already-reported"
+	}
+	for _, o := range gs {
+		if o.S.Act == actUV { // oldest UpdateValset still in the queue
+			if g.ID > o.ID {
+				return false, "ahead-of-older-valset-update"
+			}
+			break
+		}
+	}
+	if g.S.Act != actUV {
+		for _, o := range gs[:k] {
+			if o.S.Act == g.S.Act && o.S.Rep == repNone {
+				return false, "older-message-of-same-sender-pending"
+			}
+		}
+	}
+	return true, ""
+}
+
+func describe(gs []ghostMsg) string {
+	var p []string
+	for _, g := range gs {
+		p = append(p, fmt.Sprintf("#%d %s", g.ID, g.S))
+	}
+	return "[" + strings.Join(p, " | ") + "]"
+}
+
+func (e *env) checkB(ctx sdk.Context, gs []ghostMsg, path []int) {
+	w, r := e.w, e.r
+	rec := replayRec{Part: "b", B: append([]int(nil), path...)}
+	if err := e.verifyStored(ctx, gs); err != nil {
+		r.Violate("harness:b:queue-differs-from-ghost", fmt.Sprintf("queue %s: %v", describe(gs), err), rec)
+		return
+	}
+	e.count("b_queues")
+	for caller, v := range w.Vals {
+		r.Case("")
+		nontrivial := false
+		got := map[uint64]bool{}
+		msgs, err := w.App.ConsensusKeeper.GetMessagesForRelaying(ctx, e.queue, v.ValAddr)
+		if err != nil {
+			r.Violate("gating:query-failed", fmt.Sprintf("queue %s caller v%d: %v", describe(gs), caller, err), rec)
+			continue
+		}
+		for _, m := range msgs {
+			got[m.GetId()] = true
+		}
+		// the gRPC query: every caller in the thorough tier, the first assignee's in quick
+		grpc := got
+		if r.Thorough() || caller == gs[0].S.Assignee {
+			resp, err := w.App.ConsensusKeeper.QueuedMessagesForRelaying(ctx, &ctypes.QueryQueuedMessagesForRelayingRequest{QueueTypeName: e.queue, ValAddress: v.ValAddr})
+			if err != nil {
+				r.Violate("gating:grpc-query-failed", fmt.Sprintf("queue %s caller v%d: %v", describe(gs), caller, err), rec)
+				continue
+			}
+			grpc = map[uint64]bool{}
+			for _, m := range resp.Messages {
+				grpc[m.Id] = true
+			}
+			e.count("b_grpc_queries")
+		}
+		offered := 0
+		for k, g := range gs {
+			if g.S.Assignee == caller {
+				nontrivial = true
+			}
+			want, reason := reference(gs, k, caller)
+			if got[g.ID] != grpc[g.ID] {
+				r.Violate("gating:grpc-differs-from-keeper", fmt.Sprintf("queue %s caller v%d message #%d: keeper offered=%v grpc offered=%v", describe(gs), caller, g.ID, got[g.ID], grpc[g.ID]), rec)
+			}
+			switch {
+			case got[g.ID] && !want:
+				r.Violate("gating:offered:"+reason, fmt.Sprintf("queue %s: message #%d is offered to v%d although: %s", describe(gs), g.ID, caller, reason), rec)
+			case !got[g.ID] && want:
+				r.Violate("gating:withheld-eligible", fmt.Sprintf("queue %s: message #%d satisfies every condition for v%d but is not offered", describe(gs), g.ID, caller), rec)
+			}
+			if got[g.ID] {
+				offered++
+			}
+		}
+		if len(got) != offered {
+			r.Violate("gating:offered-unknown-message", fmt.Sprintf("queue %s caller v%d: %d messages offered, %d of them in the queue", describe(gs), caller, len(got), offered), rec)
+		}
+		if nontrivial {
+			r.DistinctN++
+		}
+		e.count(fmt.Sprintf("b_queries_offering_%d", offered))
+		if len(gs) == 3 && caller == 0 && offered == 2 && path[0] == 19 && path[2]%5 == 0 {
+			r.Sample(map[string]interface{}{"part": "b", "queue": describe(gs), "caller": "v0", "offered": keys(got)})
+		}
+	}
+}
+
+func keys(m map[uint64]bool) []uint64 {
+	var out []uint64
+	for k := range m {
+		out = append(out, k)
+	}
+	return out
+}
+
+func (e *env) partB(shard, nshards int) {
+	n := e.nSlots()
+	base := e.baseB()
+	e.r.Extra["b_slot_options"] = fmt.Sprintf("%d per message, queues of 1..3", n)
+	k1 := e.childrenOf(base, 1)
+	for s1 := 0; s1 < n; s1++ {
+		var c1 sdk.Context
+		var g1 []ghostMsg
+		var k2 *children
+		for s2 := 0; s2 < n; s2++ {
+			if (s1*n+s2)%nshards != shard {
+				continue
+			}
+			if e.expired("b") {
+				return
+			}
+			if k2 == nil { // first use of this depth-1 queue by this shard
+				var id1 uint64
+				var err error
+				c1, id1, err = k1.get(s1)
+				if err != nil {
+					e.r.Violate("harness:b:build", fmt.Sprintf("cannot build %s: %v", decodeSlot(s1), err), replayRec{Part: "b", B: []int{s1}})
+					break
+				}
+				g1 = []ghostMsg{{id1, decodeSlot(s1)}}
+				k2 = e.childrenOf(c1, 2)
+				if s1%nshards == shard {
+					e.checkB(c1, g1, []int{s1})
+				}
+			}
+			c2, id2, err := k2.get(s2)
+			if err != nil {
+				e.r.Violate("harness:b:build", fmt.Sprintf("cannot build %s after %s: %v", decodeSlot(s2), describe(g1), err), replayRec{Part: "b", B: []int{s1, s2}})
+				continue
+			}
+			g2 := append(append([]ghostMsg(nil), g1...), ghostMsg{id2, decodeSlot(s2)})
+			e.checkB(c2, g2, []int{s1, s2})
+			k3 := e.childrenOf(c2, 3)
+			for s3 := 0; s3 < n; s3++ {
+				c3, id3, err := k3.get(s3)
+				if err != nil {
+					e.r.Violate("harness:b:build", fmt.Sprintf("cannot build %s after %s: %v", decodeSlot(s3), describe(g2), err), replayRec{Part: "b", B: []int{s1, s2, s3}})
+					continue
+				}
+				g3 := append(append([]ghostMsg(nil), g2...), ghostMsg{id3, decodeSlot(s3)})
+				e.checkB(c3, g3, []int{s1, s2, s3})
+			}
+		}
+		if k2 == nil && s1%nshards == shard { // depth-1 queue owned by this shard but no depth-2 prefix is
+			c1, id1, err := k1.get(s1)
+			if err == nil {
+				e.checkB(c1, []ghostMsg{{id1, decodeSlot(s1)}}, []int{s1})
+			}
+		}
+	}
+}
+
+func (e *env) replayB(path []int) {
+	ctx := e.baseB()
+	var gs []ghostMsg
+	for i, s := range path {
+		id, err := e.addMessage(ctx, decodeSlot(s), i+1)
+		if err != nil {
+			e.r.Violate("harness:b:build", err.Error(), replayRec{Part: "b", B: path})
+			return
+		}
+		gs = append(gs, ghostMsg{id, decodeSlot(s)})
+		e.checkB(ctx, gs, path[:i+1])
+	}
+}
